@@ -139,8 +139,8 @@ def expected_payload(buf, dyn, L, lite_tx):
 def run_threaded(case, P):
     """lists longer than the 3-level RX FIFO: the peer's application drains in its own task while send() runs"""
     res = Result()
-    lk = Link(case.get("drv", "full"), case.get("peer", "full"), mcu=case.get("mcu"), plus=case.get("plus", True), warm=case.get("warm"))
-    res.label("plus-chips" if case.get("plus", True) else "nonplus-chips", "cold-chips" if case.get("warm") is None else "warm-chips")
+    lk = Link(case.get("drv", "full"), case.get("peer", "full"), mcu=case.get("mcu"), plus=case.get("plus", True), warm=case.get("warm"), shared_spi=False)  # two tasks = two MCUs: they cannot share a host's spidev object
+    res.label("plus-chips" if case.get("plus", True) else "nonplus-chips", "cold-chips" if case.get("warm") is None else "warm-chips", "shared-spidev" if case.get("shared_spi") else "own-spidev")
     sim, T, R, tx, rx = lk.sim, lk.T, lk.R, lk.tx, lk.rx
     configure(case, lk)
     dyn, L, pipe = bool(case["dyn"]) or bool(case.get("ackmode")), case["plen"], case["pipe"]
@@ -210,8 +210,8 @@ def run_ack_roleswap(case, P):
     with one of them), then the roles are swapped and the former receiver sends an ordinary payload: the former
     transmitter must read exactly that payload - the unused ACK payloads are not data"""
     res = Result()
-    lk = Link(case.get("drv", "full"), case.get("peer", "full"), mcu=case.get("mcu"), plus=case.get("plus", True), warm=case.get("warm"))
-    res.label("plus-chips" if case.get("plus", True) else "nonplus-chips", "cold-chips" if case.get("warm") is None else "warm-chips")
+    lk = Link(case.get("drv", "full"), case.get("peer", "full"), mcu=case.get("mcu"), plus=case.get("plus", True), warm=case.get("warm"), shared_spi=bool(case.get("shared_spi")))
+    res.label("plus-chips" if case.get("plus", True) else "nonplus-chips", "cold-chips" if case.get("warm") is None else "warm-chips", "shared-spidev" if case.get("shared_spi") else "own-spidev")
     sim, T, R, tx, rx = lk.sim, lk.T, lk.R, lk.tx, lk.rx
     a = unhex(case["a0"])
     for r in (tx, rx):
@@ -266,8 +266,8 @@ def run_write_burst(case, P):
     fill the TX FIFO, then the application raises CE; every payload for which write() returned True must come out of the
     peer's read(), in order, and the first three writes into an empty FIFO must be accepted; a second burst follows"""
     res = Result()
-    lk = Link(case.get("drv", "full"), case.get("peer", "full"), mcu=case.get("mcu"), plus=case.get("plus", True), warm=case.get("warm"))
-    res.label("plus-chips" if case.get("plus", True) else "nonplus-chips", "cold-chips" if case.get("warm") is None else "warm-chips")
+    lk = Link(case.get("drv", "full"), case.get("peer", "full"), mcu=case.get("mcu"), plus=case.get("plus", True), warm=case.get("warm"), shared_spi=bool(case.get("shared_spi")))
+    res.label("plus-chips" if case.get("plus", True) else "nonplus-chips", "cold-chips" if case.get("warm") is None else "warm-chips", "shared-spidev" if case.get("shared_spi") else "own-spidev")
     sim, T, R, tx, rx = lk.sim, lk.T, lk.R, lk.tx, lk.rx
     a = unhex(case["a0"])
     dyn, L = case["dyn"], case["L"]
@@ -357,8 +357,8 @@ def run_case(case, prefix=None):
     if case.get("ack_roleswap"):
         return run_ack_roleswap(case, P)
     res = Result()
-    lk = Link(case.get("drv", "full"), case.get("peer", "full"), mcu=case.get("mcu"), plus=case.get("plus", True), warm=case.get("warm"))
-    res.label("plus-chips" if case.get("plus", True) else "nonplus-chips", "cold-chips" if case.get("warm") is None else "warm-chips")
+    lk = Link(case.get("drv", "full"), case.get("peer", "full"), mcu=case.get("mcu"), plus=case.get("plus", True), warm=case.get("warm"), shared_spi=bool(case.get("shared_spi")))
+    res.label("plus-chips" if case.get("plus", True) else "nonplus-chips", "cold-chips" if case.get("warm") is None else "warm-chips", "shared-spidev" if case.get("shared_spi") else "own-spidev")
     sim, T, R, tx, rx = lk.sim, lk.T, lk.R, lk.tx, lk.rx
     lite_t = lk.tx_kind == "lite"
     configure(case, lk)
